@@ -46,6 +46,11 @@ var c10Shapes = []c10Shape{
 	{"token-no-token", []security.AuthMethod{mTOK}, []security.AuthMethod{mTOK}, true, false},
 	{"ssl-only", []security.AuthMethod{security.AuthSSL}, []security.AuthMethod{security.AuthSSL}, false, true},
 	{"ssl-then-ctb", []security.AuthMethod{security.AuthSSL, mCTB}, []security.AuthMethod{security.AuthSSL, mCTB}, false, true},
+	// entries that have no bit in the method mask (NONE, names cedar does not know) AHEAD of the usable method
+	{"server-none-first", []security.AuthMethod{mCTB}, []security.AuthMethod{security.AuthNone, mCTB}, false, true},
+	{"server-unknown-first", []security.AuthMethod{mCTB}, []security.AuthMethod{"MUNGE", mCTB}, false, true},
+	{"client-none-first", []security.AuthMethod{security.AuthNone, mCTB}, []security.AuthMethod{mCTB}, false, true},
+	{"both-unknown-first", []security.AuthMethod{"GSI", mCTB, mTOK}, []security.AuthMethod{"MUNGE", mTOK, mCTB}, false, true},
 }
 
 func lv(l security.SecurityLevel) string { return string(l)[:3] }
@@ -292,7 +297,7 @@ func C10Plan() *vlib.Plan {
 	p.Gen = func(tier string, yield func(vlib.Case)) {
 		shapes := c10Shapes
 		if tier != "thorough" {
-			shapes = []c10Shape{c10Shapes[0], c10Shapes[2], c10Shapes[3], c10Shapes[6], c10Shapes[7], c10Shapes[10]}
+			shapes = []c10Shape{c10Shapes[0], c10Shapes[2], c10Shapes[3], c10Shapes[6], c10Shapes[7], c10Shapes[10], c10Shapes[12], c10Shapes[13], c10Shapes[14]}
 		}
 		names := []string{}
 		for _, s := range shapes {
